@@ -144,7 +144,7 @@ def c07_extra(pid, tier, seed):
     for op, impl, model in res:
         f = op.split()
         if f[0] == 'recover' and impl.startswith('ok '):
-            t = impl.split()
+            t = [x for x in impl.split() if not x.startswith('steps=')]
             if len(t) == 3:
                 lines2.append('check %s %s %s %s %s' % (f[1], f[2], f[3], t[1], t[2]))
                 if len(lines2) % 5 == 0:
